@@ -144,7 +144,7 @@ PROPS["C08"] = dict(
     explanation="",
 )
 
-verus_unit("polyv", "poly", ["C20"], ["polynom::add", "polynom::sub", "polynom::mul", "polynom::mul_by_scalar", "polynom::degree_of", "utils::fill_power_series",
+verus_unit("polyv", "poly", ["C20"], ["polynom::add", "polynom::sub", "polynom::mul", "polynom::mul_by_scalar", "polynom::degree_of", "polynom::remove_leading_zeros", "utils::fill_power_series",
            "polynom::div (quotient * divisor + remainder == dividend coefficient by coefficient, remainder below the divisor degree; assumes five field laws)"])
 
 native_unit("poly_native", "winter-math", "math", "native/poly_bounded.rs", ["C20"],
